@@ -122,7 +122,9 @@ public:
         // Build first level
         auto in_fun = [&](auto i) { return first[i]; };
         auto out_fun = [&](auto cs) { segments.emplace_back(cs); };
-        auto last_n = internal::make_segmentation_par(n, Epsilon, in_fun, out_fun);
+        // The segmentation must be sequential: the short segments that a parallel construction leaves at the end of its
+        // chunks break the invariant (intercepts strictly increasing) on which the compressed encoding of a level relies
+        auto last_n = internal::make_segmentation(n, Epsilon, in_fun, out_fun);
         levels_offsets.push_back(levels_offsets.back() + last_n);
 
         // Build upper levels
